@@ -63,15 +63,14 @@ theorem coupledCount_two (s : Host) (i l f d : Nat) (hf : f < s.nF) (hd : d < s.
   rw [sumTo_congr (G := fun g => (if g = f then 1 else 0) + (if g = d then 1 else 0)) (fun g hg => by
       rw [if_congr (h g hg) rfl rfl]
       by_cases h1 : g = f
-      · have : ¬ g = d := fun e => hne (h1.symm.trans e)
-        simp [h1, this]
+      · subst h1; simp [hne]
       · simp [h1]),
     sumTo_add_fun, sumTo_ind, sumTo_ind, if_pos hf, if_pos hd]
 
 /-- `split_face_pairs`: on a valid input `split_faces` does not raise; every lower-dimensional cell
     `l` (of fracture `i`, matched to host face `f`) is afterwards coupled to exactly ONE host face
     — `f` itself — where the host carries a tag at `f` (the host is a fracture that ends there:
-    T-/L-intersection, one side only), and to exactly TWO host faces — `f` and its duplicate `d`,
+    T or L intersection, one side only), and to exactly TWO host faces — `f` and its duplicate `d`,
     recorded in `frac_pairs` — otherwise; each of the two copies has exactly one incident cell. -/
 theorem split_face_pairs (s : Host) (hv : s.Valid) :
     ∃ s', splitFaces s = .ok s' ∧ s'.fcCols = s'.nF ∧
@@ -110,8 +109,9 @@ theorem split_normals_opposite (s s' : Host) (hv : s.Valid) (h : splitFaces s = 
   obtain ⟨d, _, hd2, hiff, a, b, _, ha, hb, hsg, hif, hid, hnf, hndd, hp⟩ := (hinv.res i hi hi f l hf hfl).2 hr
   refine ⟨d, a, b, hp, (hiff d hd2).mpr (Or.inr rfl), hif, hid, ha, hb, by rw [hndd, hnf], hsg, ?_, ?_⟩
   · unfold Host.outward; rw [hif]; rfl
-  · unfold Host.outward; rw [hid, hndd, hnf, hsg]
+  · unfold Host.outward; rw [hid, hndd, hnf]
     simp only [List.map_cons, List.map_nil, List.cons.injEq, and_true]
+    rw [hsg]
     apply List.map_congr_left
     intro x _
     rw [Rat.intCast_neg, Rat.neg_mul]
@@ -127,5 +127,224 @@ theorem mortar_side_counts (nLow cols : Nat) (fc : Nat → Option Nat) (g1 g2 : 
     (OneSided nLow cols fc g1 → createInterface nLow fc cols = .ok ⟨1,
         (List.range nLow).map (fun l => (l, g1 l))⟩) :=
   ⟨createInterface_two, createInterface_one⟩
+
+/-- `mortar_after_split`: `split_faces` followed by `create_interfaces` on a valid input.  For a
+    fracture `i` whose lower-dimensional grid has `nLow` cells, each matched to a host face:
+    if none of these faces carries a tag the mortar grid has two sides of `nLow` cells, side one
+    on the original faces `g1`, side two on their duplicates `g2` (the pairs of `frac_pairs`);
+    if all of them carry a tag (the host ends at the lower-dimensional grid) it has one side. -/
+theorem mortar_after_split (s : Host) (hv : s.Valid) (i nLow : Nat) (hi : i < s.nFr) (hpos : 0 < nLow)
+    (htotal : ∀ l, l < nLow → ∃ f, f < s.nF ∧ s.fc i f = some l)
+    (hrange : ∀ f l, f < s.nF → s.fc i f = some l → l < nLow) :
+    ∃ s', splitFaces s = .ok s' ∧
+      ((∀ f, f < s.nF → (s.fc i f).isSome = true → s.rem f = false) →
+        ∃ g1 g2 : Nat → Nat,
+          (∀ l, l < nLow → g1 l < s.nF ∧ s.fc i (g1 l) = some l ∧ s.nF ≤ g2 l ∧ (g1 l, g2 l) ∈ s'.pairs) ∧
+          createInterface nLow (s'.fc i) s'.fcCols = .ok ⟨2,
+            (List.range nLow).map (fun l => (l, g1 l)) ++ (List.range nLow).map (fun l => (l, g2 l))⟩) ∧
+      ((∀ f, f < s.nF → (s.fc i f).isSome = true → s.rem f = true) →
+        ∃ g1 : Nat → Nat, (∀ l, l < nLow → g1 l < s.nF ∧ s.fc i (g1 l) = some l) ∧
+          createInterface nLow (s'.fc i) s'.fcCols = .ok ⟨1, (List.range nLow).map (fun l => (l, g1 l))⟩) := by
+  obtain ⟨s', h, hinv⟩ := splitFaces_valid hv
+  refine ⟨s', h, ?_, ?_⟩
+  -- every coupling of the split host comes from a coupling of the unsplit host
+  all_goals
+    have hsrc : ∀ g l, g < s'.nF → s'.fc i g = some l → l < nLow := by
+      intro g l hg hfc
+      by_cases hlt : g < s.nF
+      · rw [hinv.oldFc i g hlt] at hfc; exact hrange g l hlt hfc
+      · obtain ⟨f, hf, hfl⟩ := hinv.newSrc i g l (by omega) hg hfc
+        exact hrange f l hf hfl
+  · intro hrem
+    have key : ∀ l, ∃ f d, l < nLow → (f < s.nF ∧ s.fc i f = some l ∧ s.nF ≤ d ∧ d < s'.nF ∧ (f, d) ∈ s'.pairs ∧
+        ∀ g, g < s'.nF → (s'.fc i g = some l ↔ (g = f ∨ g = d))) := by
+      intro l
+      by_cases hl : l < nLow
+      · obtain ⟨f, hf, hfl⟩ := htotal l hl
+        obtain ⟨d, hd1, hd2, hiff, _, _, _, _, _, _, _, _, _, _, hp⟩ :=
+          (hinv.res i hi hi f l hf hfl).2 (hrem f hf (by rw [hfl]; rfl))
+        exact ⟨f, d, fun _ => ⟨hf, hfl, hd1, hd2, hp, hiff⟩⟩
+      · exact ⟨0, 0, fun h => absurd h hl⟩
+    choose g1 g2 hg using key
+    refine ⟨g1, g2, fun l hl => ⟨(hg l hl).1, (hg l hl).2.1, (hg l hl).2.2.1, (hg l hl).2.2.2.2.1⟩, ?_⟩
+    apply createInterface_two
+    refine ⟨hpos, fun l hl => ?_, fun g l hgc => ?_⟩
+    · have := hg l hl; have := hinv.aligned; omega
+    · rw [hinv.aligned] at hgc
+      constructor
+      · intro hfc
+        have hl := hsrc g l hgc hfc
+        exact ⟨hl, ((hg l hl).2.2.2.2.2 g hgc).mp hfc⟩
+      · rintro ⟨hl, hor⟩
+        exact ((hg l hl).2.2.2.2.2 g hgc).mpr hor
+  · intro hrem
+    have key : ∀ l, ∃ f, l < nLow → (f < s.nF ∧ s.fc i f = some l ∧
+        ∀ g, g < s'.nF → (s'.fc i g = some l ↔ g = f)) := by
+      intro l
+      by_cases hl : l < nLow
+      · obtain ⟨f, hf, hfl⟩ := htotal l hl
+        exact ⟨f, fun _ => ⟨hf, hfl, (hinv.res i hi hi f l hf hfl).1 (hrem f hf (by rw [hfl]; rfl))⟩⟩
+      · exact ⟨0, fun h => absurd h hl⟩
+    choose g1 hg using key
+    refine ⟨g1, fun l hl => ⟨(hg l hl).1, (hg l hl).2.1⟩, ?_⟩
+    apply createInterface_one
+    refine ⟨hpos, fun l hl => ?_, fun g l hgc => ?_⟩
+    · have := hg l hl; have := hinv.aligned; have := hinv.nF; omega
+    · rw [hinv.aligned] at hgc
+      constructor
+      · intro hfc
+        have hl := hsrc g l hgc hfc
+        exact ⟨hl, ((hg l hl).2.2 g hgc).mp hfc⟩
+      · rintro ⟨hl, hor⟩
+        exact ((hg l hl).2.2 g hgc).mpr hor
+
+/-! ### non-vacuity: concrete inputs satisfying every hypothesis -/
+
+/-- 2 × 2 Cartesian grid (cells 0..3; x-faces 0..5, y-faces 6..11, PorePy numbering and signs) with a
+    horizontal fracture on the y-faces 8, 9 and a vertical fracture on the x-faces 1, 4 (an X). -/
+def exInc : Nat → List Inc
+  | 0 => [⟨0, -1, false⟩]
+  | 1 => [⟨0, 1, true⟩, ⟨1, -1, false⟩]
+  | 2 => [⟨1, 1, false⟩]
+  | 3 => [⟨2, -1, false⟩]
+  | 4 => [⟨2, 1, true⟩, ⟨3, -1, false⟩]
+  | 5 => [⟨3, 1, false⟩]
+  | 6 => [⟨0, -1, false⟩]
+  | 7 => [⟨1, -1, false⟩]
+  | 8 => [⟨0, 1, true⟩, ⟨2, -1, false⟩]
+  | 9 => [⟨1, 1, true⟩, ⟨3, -1, false⟩]
+  | 10 => [⟨2, 1, false⟩]
+  | 11 => [⟨3, 1, false⟩]
+  | _ => []
+
+def exFc : Nat → Nat → Option Nat
+  | 0, 8 => some 0
+  | 0, 9 => some 1
+  | 1, 1 => some 0
+  | 1, 4 => some 1
+  | _, _ => none
+
+def exX : Host :=
+  { nF := 12, inc := exInc, frac := fun _ => false, tip := fun _ => false,
+    dom := fun g => decide (g ∈ [0, 2, 3, 5, 6, 7, 10, 11]),
+    normal := fun g => if g < 6 then [1, 0, 0] else [0, 1, 0],
+    nFr := 2, fcCols := 12, fc := exFc, pairs := [] }
+
+theorem exX_valid : exX.Valid where
+  aligned := rfl
+  disjoint := by
+    intro i j g hi hj hne hg hs
+    have hj' : j < 2 := hj
+    have hi' : i < 2 := hi
+    show exFc j g = none
+    have hs' : (exFc i g).isSome = true := hs
+    unfold exFc at hs'
+    split at hs'
+    · have : j = 1 := by omega
+      subst this; rfl
+    · have : j = 1 := by omega
+      subst this; rfl
+    · have : j = 0 := by omega
+      subst this; rfl
+    · have : j = 0 := by omega
+      subst this; rfl
+    · cases hs'
+  inj := by
+    intro i g g' l _ _ _ h1 h2
+    have h1' : exFc i g = some l := h1
+    have h2' : exFc i g' = some l := h2
+    unfold exFc at h1' h2'
+    split at h1' <;> split at h2' <;> simp_all
+  interior := by
+    intro i g _ _ hs _
+    have hs' : (exFc i g).isSome = true := hs
+    unfold exFc at hs'
+    split at hs'
+    · exact ⟨⟨2, -1, false⟩, ⟨0, 1, true⟩, Or.inr rfl, rfl, rfl, rfl⟩
+    · exact ⟨⟨3, -1, false⟩, ⟨1, 1, true⟩, Or.inr rfl, rfl, rfl, rfl⟩
+    · exact ⟨⟨1, -1, false⟩, ⟨0, 1, true⟩, Or.inr rfl, rfl, rfl, rfl⟩
+    · exact ⟨⟨3, -1, false⟩, ⟨2, 1, true⟩, Or.inr rfl, rfl, rfl, rfl⟩
+    · cases hs'
+
+/-- observable part of a host: rows of cell_faces, fracture tags, frac_pairs, face_cells columns -/
+def view (s : Host) : List (List (Nat × Int)) × List Bool × List (Nat × Nat) × List (List (Option Nat)) :=
+  ((List.range s.nF).map (fun g => (s.inc g).map (fun a => (a.cell, a.sign))), (List.range s.nF).map s.frac, s.pairs,
+    (List.range s.nFr).map (fun i => (List.range s.fcCols).map (s.fc i)))
+
+/-- the X: four faces are duplicated (new faces 12..15), the cells below / left of the fractures
+    move to the duplicates, both copies are tagged and coupled to the same lower-dimensional cell -/
+example : (splitFaces exX).toOption.map view = some
+    ([[(0, -1)], [(1, -1)], [(1, 1)], [(2, -1)], [(3, -1)], [(3, 1)], [(0, -1)], [(1, -1)], [(2, -1)], [(3, -1)],
+      [(2, 1)], [(3, 1)], [(0, 1)], [(1, 1)], [(0, 1)], [(2, 1)]],
+     [false, true, false, false, true, false, false, false, true, true, false, false, true, true, true, true],
+     [(8, 12), (9, 13), (1, 14), (4, 15)],
+     [[none, none, none, none, none, none, none, none, some 0, some 1, none, none, some 0, some 1, none, none],
+      [none, some 0, none, none, some 1, none, none, none, none, none, none, none, none, none, some 0, some 1]]) := by
+  decide +kernel
+
+example : (splitFaces exX).toOption.map (fun s => (createInterface 2 (s.fc 0) s.fcCols, createInterface 2 (s.fc 1) s.fcCols))
+    = some (.ok ⟨2, [(0, 8), (1, 9), (0, 12), (1, 13)]⟩, .ok ⟨2, [(0, 1), (1, 4), (0, 14), (1, 15)]⟩) := by
+  decide +kernel
+
+example : exX.RowsWF := by
+  intro g hg
+  have : 12 ≤ g := hg
+  show exInc g = []
+  unfold exInc
+  split <;> first | omega | rfl
+
+/-- all hypotheses of `mortar_after_split` hold for the horizontal fracture of the X -/
+example : ∃ s', splitFaces exX = .ok s' ∧ ∃ g1 g2 : Nat → Nat,
+    createInterface 2 (s'.fc 0) s'.fcCols = .ok ⟨2,
+      (List.range 2).map (fun l => (l, g1 l)) ++ (List.range 2).map (fun l => (l, g2 l))⟩ := by
+  obtain ⟨s', h, h2, _⟩ := mortar_after_split exX exX_valid 0 2 (by decide) (by decide)
+    (fun l hl => by
+      have : l = 0 ∨ l = 1 := by omega
+      rcases this with rfl | rfl
+      · exact ⟨8, by decide, rfl⟩
+      · exact ⟨9, by decide, rfl⟩)
+    (fun f l _ hfl => by
+      have hfl' : exFc 0 f = some l := hfl
+      unfold exFc at hfl'
+      split at hfl' <;> simp_all)
+  refine ⟨s', h, ?_⟩
+  obtain ⟨g1, g2, _, hc⟩ := h2 (fun f _ hs => by
+    have hs' : (exFc 0 f).isSome = true := hs
+    unfold exFc at hs'
+    split at hs' <;> first | rfl | cases hs' | simp_all)
+  exact ⟨g1, g2, hc⟩
+
+/-- a fracture (1-d host, cells 0 1, faces 0 1 2) that ends at another fracture in its tip face 0
+    (T-intersection): the face is tagged, it is not duplicated, the intersection point gets one side -/
+def exT : Host :=
+  { nF := 3,
+    inc := fun g => match g with
+      | 0 => [⟨0, -1, false⟩]
+      | 1 => [⟨0, 1, false⟩, ⟨1, -1, false⟩]
+      | 2 => [⟨1, 1, false⟩]
+      | _ => [],
+    frac := fun _ => false, tip := fun g => decide (g = 0 ∨ g = 2), dom := fun _ => false,
+    normal := fun _ => [1, 0, 0], nFr := 1, fcCols := 3,
+    fc := fun i g => if i = 0 ∧ g = 0 then some 0 else none, pairs := [] }
+
+theorem exT_valid : exT.Valid where
+  aligned := rfl
+  disjoint := by intro i j g hi hj hne; have : i < 1 := hi; have : j < 1 := hj; omega
+  inj := by
+    intro i g g' l _ _ _ h1 h2
+    have h1' : (if i = 0 ∧ g = 0 then some 0 else none) = some l := h1
+    have h2' : (if i = 0 ∧ g' = 0 then some 0 else none) = some l := h2
+    split at h1' <;> split at h2' <;> simp_all
+  interior := by
+    intro i g _ _ hs hr
+    have hs' : (if i = 0 ∧ g = 0 then some 0 else none : Option Nat).isSome = true := hs
+    split at hs'
+    · rename_i h; obtain ⟨_, rfl⟩ := h; cases hr
+    · cases hs'
+
+example : (splitFaces exT).toOption.map (fun s => (view s, (List.range s.nF).map s.tip, createInterface 1 (s.fc 0) s.fcCols))
+    = some (([[(0, -1)], [(0, 1), (1, -1)], [(1, 1)]], [true, false, false], [], [[some 0, none, none]]),
+            [false, false, true], .ok ⟨1, [(0, 0)]⟩) := by
+  decide +kernel
 
 end PorepyVerif.C25
